@@ -166,7 +166,7 @@ pub fn run_check(prop: &str, tier: &str, base_seed: u64, verif_dir: &str) -> i32
         return 2;
     }
     /* thorough batches are sized for 10-20 minutes on 16 workers */
-    let scale: f64 = std::env::var("ESIM_SCALE").ok().and_then(|s| s.parse().ok()).unwrap_or(1.0) * if thorough { 1.5 } else { 3.0 };
+    let scale: f64 = std::env::var("ESIM_SCALE").ok().and_then(|s| s.parse().ok()).unwrap_or(1.0) * if thorough { 0.75 } else { 3.0 };
     let findings = load_findings(&format!("{}/known_findings.json", verif_dir));
     /* the job list is described, not materialised: thorough tiers run millions of plans */
     #[derive(Clone)]
